@@ -250,7 +250,13 @@ func RunCall(p *world.Proc, spec string) string {
 		maxr, _ := strconv.Atoi(parts[5])
 		prb := probe.New(addr.NewForTesting(net.ParseIP(host), pn), pp, probe.Goal(goal), maxr)
 		prb.Retries = retries
-		return ErrClass(p.Probes.AddBetween(ctx, prb, ParseTime(parts[6]), ParseTime(parts[7])))
+		// the two instants reach the repository in different representations (UTC / a fixed zone), as times that went through
+		// different computations do: only the instants may matter
+		before := ParseTime(parts[7])
+		if !before.IsZero() {
+			before = before.In(time.FixedZone("verif", 3600))
+		}
+		return ErrClass(p.Probes.AddBetween(ctx, prb, ParseTime(parts[6]), before))
 	case "ppop":
 		n, _ := strconv.Atoi(parts[1])
 		prbs, expired, err := p.Probes.PopMany(ctx, n)
